@@ -10,6 +10,10 @@
               a rendered cell              a str, or (InventoryRenderer with expand) a PList of str
               RenderContext                PTuple [61; dcontext; expand; listsep; spaced; null]
               a column renderer            PTuple [60; datatype; ctx; PList (the values update() was called with)]
+                                           (update appends; prepare() is pure here and answers Render.st_width of
+                                           Render.col_prepare over those values; format reads the same state)
+              Column(name, datatype)       PTuple [63; name; datatype]
+              csv.writer(file)             PTuple [62; the text written so far]  (excel dialect: Render.csv_record)
               Decimal.as_tuple()           PTuple [50; sign; PTuple digits; exponent]
    Primitives, from Render.v's own string functions:
      max(a, b) on ints; str(x) = Render.py_str; date.strftime('%Y-%m-%d') = Render.date_str (this format only);
@@ -198,6 +202,12 @@ Definition transpose (ls : list (list pv)) : list pv :=
       map (fun i => PTuple (map (fun c => nth i c PNone) ls)) (seq 0 n)
   end.
 
+Definition line_of (v : pv) : option (list str) :=
+  match seq_of v with Some l => n_map_opt dec_s l | None => None end.
+
+Definition enc_rcolumn (d : str * dtype) : pv := PTuple [PInt 63; enc_s (fst d); enc_rdtype (snd d)].
+Definition csv_writer (content : str) : pv := PTuple [PInt 62; enc_s content].
+
 Definition as_int (v : pv) : option Z := match v with PV (VInt z) => Some z | _ => None end.
 Definition as_boolv (v : pv) : option bool := match v with PV (VBool b) => Some b | _ => None end.
 
@@ -249,6 +259,42 @@ Definition prims_top (name : string) (args : list pv) : res pv :=
   else if String.eqb name "zip*" then
     match args with
     | [PList cs] => match n_map_opt seq_of cs with Some ls => Ok (PList (transpose ls)) | None => Stuck end
+    | _ => Stuck
+    end
+  else if String.eqb name "beanquery.query_render.RenderContext:expand,spaced,listsep,null" then
+    match args with [dc; ex; sp; sep; nl] => Ok (PTuple [PInt 61; dc; ex; sep; sp; nl]) | _ => Stuck end
+  else if String.eqb name "attr:name" then
+    match args with [PTuple [PV (VInt 63); n; _]] => Ok n | _ => Stuck end
+  else if String.eqb name "attr:datatype" then
+    match args with [PTuple [PV (VInt 63); _; t]] => Ok t | _ => Stuck end
+  else if String.eqb name "method:update" then
+    match args with
+    | [PTuple [PV (VInt 60); t; c; PList vals]; v] => Ok (PTuple [PTuple [PInt 60; t; c; PList (vals ++ [v])]; PNone])
+    | _ => Stuck
+    end
+  else if String.eqb name "call:prepare" then
+    match args with
+    | [r] => match dec_robj r with
+             | Some (t, o, vals) => Ok (PInt (Z.of_nat (st_width numfmt (col_prepare quant o t vals))))
+             | None => Stuck
+             end
+    | _ => Stuck
+    end
+  else if String.eqb name "_csv.writer" then
+    match args with [PV (VStr f)] => Ok (csv_writer f) | _ => Stuck end
+  else if String.eqb name "method:writerow" then
+    match args with
+    | [PTuple [PV (VInt 62); PV (VStr f)]; row] =>
+        match line_of row with Some fields => Ok (PTuple [csv_writer (f ++ csv_record fields); PNone]) | None => Stuck end
+    | _ => Stuck
+    end
+  else if String.eqb name "method:writerows" then
+    match args with
+    | [PTuple [PV (VInt 62); PV (VStr f)]; PList lines] =>
+        match n_map_opt line_of lines with
+        | Some recs => Ok (PTuple [csv_writer (f ++ flat_map csv_record recs); PNone])
+        | None => Stuck
+        end
     | _ => Stuck
     end
   else prims_render name args.
